@@ -486,11 +486,7 @@ Definition step (fuel : nat) (st : istate) (o : op) : M (istate * out) :=
       modify (fun s => s <| handles := <[h := None]> (handles s) |>) ;;; ret (st, OutUnit)
   | OpDropVar x =>
       (* impl Drop for Var (public.rs:272): the last handle queues the var on dead_vars *)
-      v <- get_var x ;;
-      upd_var x (fun v => v <| v_handles := pred (v_handles v) |>) ;;;
-      (if bool_decide (v_handles v = 1%nat) then modify (fun s => s <| dead_vars := dead_vars s ++ [x] |>)
-       else ret tt) ;;;
-      ret (st, OutUnit)
+      drop_var_handle x ;;; ret (st, OutUnit)
   | OpDropExports => modify (fun s => s <| exports := [] |>) ;;; ret (st, OutUnit)
   | OpCrashAt k =>
       modify (fun s => s <| crash_at := Some (inv_count s + k)%nat |>) ;;; ret (st, OutUnit)
